@@ -247,3 +247,31 @@ MUTANTS += [
     {"id": "C05-eightbit-selector-missing-mark", "prop": "C05", "expect": "SGR-PARAMS/TTYEncoder::encode/FaceModify/EightBit",
      "edits": [(E, "            chunks.push(b\"5\");\n            write!(chunks, \"{}\", index)?;\n            chunks.mark();", "            chunks.push(b\"5\");\n            chunks.mark();\n            write!(chunks, \"{}\", index)?;\n            chunks.mark();")]},
 ]
+
+# ---- Char written without the fmt machinery: the UTF-8 encoding through encode_utf8 / to_string (what Display of a char writes);
+# ---- and the same shapes writing something else (first byte only, a buffer too small for 3- and 4-byte characters)
+_CHAR_ARM = 'Char(c) => write!(out, "{}", c)?,'
+MUTANTS += [
+    {"id": "C05-benign-char-encode-utf8", "prop": "C05", "benign": True,
+     "edits": [(E, _CHAR_ARM, "Char(c) => out.write_all(c.encode_utf8(&mut [0u8; 4]).as_bytes())?,")]},
+    {"id": "C05-benign-char-to-string-bytes", "prop": "C05", "benign": True,
+     "edits": [(E, _CHAR_ARM, "Char(c) => out.write_all(c.to_string().as_bytes())?,")]},
+    {"id": "C05-benign-char-encode-utf8-larger-buffer", "prop": "C05", "benign": True,
+     "edits": [(E, _CHAR_ARM, "Char(c) => out.write_all(c.encode_utf8(&mut [0; 8]).as_bytes())?,")]},
+    {"id": "C05-char-first-byte-only", "prop": "C05", "expect": "TEMPLATE/Char/",
+     "edits": [(E, _CHAR_ARM, "Char(c) => out.write_all(&c.encode_utf8(&mut [0u8; 4]).as_bytes()[..1])?,")]},
+    {"id": "C05-char-encode-utf8-short-buffer", "prop": "C05", "expect": "TEMPLATE/Char/",
+     "edits": [(E, _CHAR_ARM, "Char(c) => out.write_all(c.encode_utf8(&mut [0u8; 2]).as_bytes())?,")]},
+]
+MUTANTS += [
+    {"id": "C05-benign-char-string-from-bytes", "prop": "C05", "benign": True,
+     "edits": [(E, _CHAR_ARM, "Char(c) => out.write_all(String::from(c).as_bytes())?,")]},
+    {"id": "C05-benign-char-to-string-into-bytes", "prop": "C05", "benign": True,
+     "edits": [(E, _CHAR_ARM, "Char(c) => out.write_all(&c.to_string().into_bytes())?,")]},
+    {"id": "C05-benign-char-display-of-encoded-str", "prop": "C05", "benign": True,
+     "edits": [(E, _CHAR_ARM, 'Char(c) => write!(out, "{}", c.encode_utf8(&mut [0u8; 4]))?,')]},
+    {"id": "C05-benign-char-inline-format-arg", "prop": "C05", "benign": True,
+     "edits": [(E, _CHAR_ARM, 'Char(c) => write!(out, "{c}")?,')]},
+    {"id": "C05-char-debug-of-encoded-str", "prop": "C05", "expect": "TEMPLATE/Char/",
+     "edits": [(E, _CHAR_ARM, 'Char(c) => write!(out, "{:?}", c.encode_utf8(&mut [0u8; 4]))?,')]},
+]
